@@ -106,4 +106,47 @@ Section Saturated.
       pose proof (semantics_is_the_generated_code f sc Huniq Hprov e k ef R Hin) as Hs. rewrite Et in Hs.
       destruct Hs as [Hs _]. apply in_flat_map. exists (FT k, ef). split; [exact Hin|]. cbn [snd]. rewrite Hs. now left.
   Qed.
+
+  (* a saturated execution without failure of an acyclic job graph (some rank decreases along
+     every dependency - the graphs the validator accepts) ran every job: "nil only if every
+     task ran" *)
+  Theorem saturated_no_failure_complete (rk : fid -> nat) e :
+    (forall x d, In d (jdeps f x) -> rk d < rk x) ->
+    reach e -> saturated e -> xfail e = [] -> complete f e = true.
+  Proof.
+    intros Hrk R Hsat Hnf. pose proof (reach_good f sc Huniq e R) as G.
+    assert (Hall : forall n x, rk x < n -> In x (all_jobs f) -> In x (xok e)).
+    { induction n as [|n IH]; intros x Hx Hj; [lia|].
+      assert (Hdeps : forall d, In d (jdeps f x) -> In d (xok e)).
+      { intros d Hd. apply IH; [specialize (Hrk x d Hd); lia|].
+        destruct d as [k|k].
+        - cbn [jdeps] in Hd. destruct x as [kx|kx]; cbn [jdeps] in Hd.
+          + apply in_app_or in Hd. destruct Hd as [Hd|Hd].
+            * unfold prov_jobs in Hd. apply in_flat_map in Hd. destruct Hd as (t & _ & Hd).
+              destruct (gprov f t) as [[k' i]|] eqn:Hg; [|contradiction]. destruct Hd as [E|[]]. injection E as <-.
+              apply in_all_jobs_FT. apply (gprov_sound f t k' i Hg).
+            * destruct (kpred (taskof f kx)); [destruct Hd as [E|[]]; discriminate | contradiction].
+          + destruct (kpred (taskof f kx)) as [pins|]; [|contradiction].
+            unfold prov_jobs in Hd. apply in_flat_map in Hd. destruct Hd as (t & _ & Hd).
+            destruct (gprov f t) as [[k' i]|] eqn:Hg; [|contradiction]. destruct Hd as [E|[]]. injection E as <-.
+            apply in_all_jobs_FT. apply (gprov_sound f t k' i Hg).
+        - destruct x as [kx|kx]; cbn [jdeps] in Hd.
+          + apply in_app_or in Hd. destruct Hd as [Hd|Hd].
+            * unfold prov_jobs in Hd. apply in_flat_map in Hd. destruct Hd as (t & _ & Hd).
+              destruct (gprov f t) as [[k' i]|]; [destruct Hd as [E|[]]; discriminate | contradiction].
+            * destruct (kpred (taskof f kx)) as [pins|] eqn:Ep; [|contradiction]. destruct Hd as [E|[]]. injection E as <-.
+              apply in_all_jobs_FT in Hj. unfold all_jobs. apply in_flat_map. exists kx. split; [apply in_seq; lia|]. rewrite Ep. now left.
+          + destruct (kpred (taskof f kx)) as [pins|]; [|contradiction].
+            unfold prov_jobs in Hd. apply in_flat_map in Hd. destruct Hd as (t & _ & Hd).
+            destruct (gprov f t) as [[k' i]|]; [destruct Hd as [E|[]]; discriminate | contradiction]. }
+      destruct (in_dec fid_eq_dec x (ran e)) as [Hr|Hnr].
+      - unfold ran in Hr. apply in_map_iff in Hr. destruct Hr as [[y ef] [Ey Hin]]. cbn in Ey. subst y.
+        apply (g_ok f sc e G). exists ef. split; [exact Hin|].
+        destruct (je_res ef) as [|er] eqn:Er; [reflexivity|]. exfalso.
+        assert (Hf : In er (xfail e)).
+        { unfold xfail. apply in_flat_map. exists (x, ef). split; [exact Hin|]. cbn [snd]. rewrite Er. now left. }
+        rewrite Hnf in Hf. contradiction.
+      - destruct (Hsat x Hj Hnr) as [d [Hd Hnd]]. elim Hnd. now apply Hdeps. }
+    unfold complete. apply forallb_forall. intros x Hx. apply existsb_fid. apply (Hall (S (rk x))); [lia | exact Hx].
+  Qed.
 End Saturated.
